@@ -332,6 +332,8 @@ def parse_filesinfo(cur, viol, props_seen):
             for f, d in zip(files, defined):
                 if d:
                     f["startpos"] = sub.u64()
+        elif pid == 0x16:
+            sub.pos = sub.end  # kComment: opaque
         elif pid == 0x19:
             if any(sub.buf[sub.pos:sub.end]):
                 viol.append("dummy-nonzero")
